@@ -705,7 +705,7 @@ struct Parsed {
     calls: usize, ok: usize, err: usize, panic: usize,
     done: bool,
     open_call: Option<String>,
-    sites: Vec<(String, String)>,          // (file:line, call name) distinct by (site, call kind)
+    sites: Vec<(String, String, String)>,  // (file:line, call name, panic message) distinct by (site, call kind)
     hist: BTreeMap<String, [usize; 3]>,
 }
 
@@ -734,7 +734,8 @@ fn parse_transcript(t: &str) -> Parsed {
             else if let Some(w) = res.strip_prefix("PANIC ") {
                 p.panic += 1; e[2] += 1;
                 let site = w.split(' ').next().unwrap_or("?").to_string();
-                if seen.insert((site.clone(), k)) { p.sites.push((site, name)); }
+                let msg = w[site.len()..].trim().to_string();
+                if seen.insert((site.clone(), k)) { p.sites.push((site, name, msg)); }
             }
         } else if line.starts_with("= DONE") {
             p.done = true;
@@ -781,11 +782,14 @@ fn walk_parent(f: &[Vec<u8>]) -> R {
         break (cr, p, terminal);
     };
     let _ = cr;
-    let mut detail: Vec<String> = p.sites.iter().map(|(s, c)| format!("{}@{}", s, c)).collect();
+    let mut detail: Vec<String> = p.sites.iter().map(|(s, c, _)| format!("{}@{}", s, c)).collect();
+    // the message of each panic, in the order of `detail` (known findings are matched on file + message, so that an edit
+    // which only moves lines does not turn a listed panic into an unlisted one)
+    let msgs: Vec<String> = p.sites.iter().map(|(s, _, m)| format!("{}\t{}", s, m)).collect();
     if let Some(t) = terminal.as_ref() { detail.push(t.clone()); }
-    let status = if let Some((s, c)) = p.sites.first() { format!("PANIC {} {}", s, c) }
+    let status = if let Some((s, c, _)) = p.sites.first() { format!("PANIC {} {}", s, c) }
                  else if let Some(t) = terminal { t } else { "CLEAN".to_string() };
     let stats = format!("calls={} ok={} err={} panic={} attempts={}", p.calls, p.ok, p.err, p.panic, attempts);
     let hist: Vec<String> = p.hist.iter().map(|(k, v)| format!("{} {} {} {}", k, v[0], v[1], v[2])).collect();
-    Ok(vec![status.into_bytes(), stats.into_bytes(), detail.join("\n").into_bytes(), hist.join("\n").into_bytes()])
+    Ok(vec![status.into_bytes(), stats.into_bytes(), detail.join("\n").into_bytes(), hist.join("\n").into_bytes(), msgs.join("\n").into_bytes()])
 }
